@@ -58,6 +58,7 @@
 #include "fiber.h"
 #include "fiber_io.h"
 #include "fiber_manager.h"
+#include "fiber_mutex.h"
 #include "wrap_io.h"
 
 #define VH_NOINSTR __attribute__((no_sanitize_thread))
@@ -153,6 +154,7 @@ static long io_max_fd = 20000;
 static int closed_fd = 60;
 static volatile int flags_[16];
 static volatile int dataerr;
+static int done_count;
 
 /* stream bookkeeping, indexed by descriptor number */
 static int peer_of[FDT];        /* descriptor at the other end, or -1 */
@@ -687,6 +689,11 @@ static void* fiber_main(void* arg) {
   vr_note("fiber start %d", t);
   for (int i = 0; i < nops[t]; i++) do_op(t, i, ops[t][i]);
   vr_note("fiber end %d", t);
+  if (__sync_add_and_fetch(&done_count, 1) == nfib) {
+    vr_set_done();
+    vr_note("all done");
+    vr_finish(dataerr ? "DATAERR" : "OK");
+  }
 #ifdef IO_NATIVE
   n_fid = 0;
 #endif
@@ -759,11 +766,17 @@ VH_NOINSTR int main(int argc, char** argv) {
   for (int t = 0; t < nfib; t++) {
     fibers[t] = fiber_create_no_sched(65536, fiber_main, (void*)(long)t);
     reg_fiber(fibers[t]);
+    fiber_detach(fibers[t]);
   }
   vr_note("spawn %d", nfib);
   for (int t = 0; t < nfib; t++) fiber_manager_schedule(fiber_manager_get(), fibers[t]);
-  for (int t = 0; t < nfib; t++) fiber_join(fibers[t], NULL);
-  vr_set_done();
-  vr_note("all joined");
-  vr_finish(dataerr ? "DATAERR" : "OK");
+  /* park the main fiber for good (second lock of a held mutex): kernel thread 0 then behaves
+   * like every other one (runs fibers, polls for events when idle).  The script fiber that
+   * finishes last ends the run.  (fiber_join is avoided: its rendezvous spins on unregistered
+   * cells, which the deterministic scheduler cannot see.) */
+  static fiber_mutex_t park;
+  fiber_mutex_init(&park);
+  fiber_mutex_lock(&park);
+  fiber_mutex_lock(&park);
+  vr_finish("UNPARKED");
 }
